@@ -5,10 +5,12 @@ import (
 	"fmt"
 	"testing"
 
+	"github.com/elastos/Elastos.ELA/common"
 	"pgregory.net/rapid"
 	"verifharness/lib/canon"
 	"verifharness/lib/vk"
 	"verifharness/statekit"
+	"verifharness/statekit/rbk"
 )
 
 type restoreCase struct {
@@ -25,9 +27,13 @@ type restoreCase struct {
 // state of the node that never restarted.
 func TestRestoreContinue(t *testing.T) {
 	rapid.Check(t, func(t *rapid.T) {
-		era := statekit.Era(rapid.SampledFrom([]int{0, 1, 1, 2, 2}).Draw(t, "era"))
+		era := statekit.Era(rapid.SampledFrom([]int{0, 1, 1, 2, 2, 3, 3}).Draw(t, "era"))
 		prof := statekit.DrawProfile(t, era)
 		prof.RecordSponsorStart = statekit.Far
+		if era >= statekit.EraV2 {
+			prof.DPoSV2MaxVotesLockTime = 100000
+			prof.DPoSV2EffectiveVotes = common.Fixed64(rapid.SampledFrom([]int64{80, 800}).Draw(t, "effective")) * statekit.ELA
+		}
 		statekit.CRFocusProfile(t, &prof)
 		a := statekit.New(prof)
 		defer a.Close()
@@ -36,8 +42,28 @@ func TestRestoreContinue(t *testing.T) {
 		g.UniformKinds = true
 		if era >= statekit.EraCR {
 			g.AddKinds(statekit.CRKinds())
+			if era >= statekit.EraV2 {
+				// staking, DPoS 2.0 producers and votes, stake-based CR votes
+				g.AddKinds(statekit.C28Kinds())
+				g.AddKinds(statekit.CRV2Kinds())
+				g.NProducers = 12
+				g.MaxTxs = 4
+				statekit.SetC28Drive(g, true)
+				defer statekit.SetC28Drive(g, false)
+			}
 			// proposal life cycles, a staffed second election
 			statekit.CRFocusKinds(g)
+			if era >= statekit.EraV2 {
+				focus := g.Boost
+				v2 := statekit.C28Kinds()
+				g.Boost = func(kind string) int {
+					b := focus(kind)
+					if _, ok := v2[kind]; ok && g.K.Height+1 >= g.K.Params.DPoSV2StartHeight {
+						b *= 3
+					}
+					return b
+				}
+			}
 		}
 		a.StartAt(prof.VoteStart - 1)
 		rc := &restoreCase{Profile: prof, Era: era.String()}
@@ -48,6 +74,8 @@ func TestRestoreContinue(t *testing.T) {
 			last = prof.CRClaimStart
 		case statekit.EraNewCR:
 			last = prof.RevertToPOWStart
+		case statekit.EraV2:
+			last = prof.DPoSV2Start
 		}
 		end := last + uint32(rapid.IntRange(2, 30).Draw(t, "end"))
 		saveAt := prof.VoteStart + uint32(rapid.IntRange(1, int(end-prof.VoteStart)-1).Draw(t, "saveat"))
@@ -149,6 +177,8 @@ func TestRestoreContinue(t *testing.T) {
 // (snapshot cache, histories, callbacks).
 var notRestored = map[string]bool{}
 
+var arbiterCopies = rbk.ArbiterCopyMask()
+
 func compareKits(t *rapid.T, clause string, a, b *statekit.Kit, rc *restoreCase) bool {
 	rc.Compared = append(rc.Compared, a.Height)
 	// CRInfo.Signature is dropped by CRMember/Candidate.Serialize: that is the
@@ -170,6 +200,13 @@ func compareKits(t *rapid.T, clause string, a, b *statekit.Kit, rc *restoreCase)
 			continue
 		}
 		sig := "C23:" + clause + ":" + v.name + df.Sig()
+		if v.name == "dpos:" && (&canon.Differ{Mask: arbiterCopies}).First(v.x, v.y) == nil {
+			// the only differences are the vote maps inside the Producer copies
+			// of the arbiter lists: in the straight node they are the live
+			// producer's maps (shallow copy), in the restarted node separate
+			// deserialized ones - one finding whatever the list
+			sig = "C23:" + clause + ":dpos:arbiter-producer-copy-shares-vote-maps"
+		}
 		detail := fmt.Sprintf("height %d: restarted node has %s = %s, straight node has %s", a.Height, df.Path, df.A, df.B)
 		if !vk.Report(t, sig, detail, rc) {
 			return false
